@@ -252,6 +252,11 @@ case("C18", "C18-b-noncapture", "benign", "filters wrapped in a non-capturing gr
 
 case("C18", "C18-seed2", "mutant", "seeded: platform digest cached under the index digest alone",
      patch="seeded/C18-2/patch.diff", expect=[("C18.R4", "getPlatformDigest", "store into cache")])
+case("C09", "C09-seed3", "mutant", "seeded: Docker import hoists the list entry into a local before the selection by name",
+     patch="seeded/C09-3/patch.diff", expect=[("C09.R8", "imageImportDockerAddLayerHandlers", "read of the manifest.json list")])
+case("C09", "C09-b-hoist", "benign", "the selected entry hoisted into a local after the selection",
+     edits=[("image.go", "\t// make a docker v2 manifest from first json array entry (can only tag one image)\n\ttrd.dockerManifest.SchemaVersion = 2\n\ttrd.dockerManifest.MediaType = mediatype.Docker2Manifest\n\ttrd.dockerManifest.Layers = make([]descriptor.Descriptor, len(trd.dockerManifestList[index].Layers))",
+             "\timage := trd.dockerManifestList[index]\n\ttrd.dockerManifest.SchemaVersion = 2\n\ttrd.dockerManifest.MediaType = mediatype.Docker2Manifest\n\ttrd.dockerManifest.Layers = make([]descriptor.Descriptor, len(image.Layers))")])
 case("C15", "C15-seed4", "mutant", "seeded: regctl ref retries a refused argument with the host parser",
      patch="seeded/C15-4/patch.diff", expect=[("C15.R7", "runRef", "parse by New")])
 case("C18", "C18-seed3", "mutant", "seeded: catalog paging helper returns the filtered page; end test and marker computed from it",
